@@ -14,6 +14,7 @@ ties them to /repo on every run by correspondence:
      `get_with_address` on the final graph.
 Every case is also judged by the property oracles of cfg_oracle.py (plain Python on the instruction
 stream, independent of amoco and of the model) which turn a disagreement into a failing input.
+`python c18.py replay <file>` re-runs a replay file on the current tree.
 """
 import sys, os, json, itertools
 from common import *
@@ -98,8 +99,23 @@ def main(tier):
     quick = tier == "quick"
     r = rng("C18")
     broken = ck.build_and_audit(["Amoco.Props.C18", "drv_cfg"])
+    if not quick and not broken:
+        # independent re-check of the compiled property modules by the external kernel checker
+        import subprocess
+        mods = sorted(lean_import_closure("Amoco.Props.C18"))
+        try:
+            pr = subprocess.run(["lake", "env", "leanchecker"] + mods, cwd=LEAN, stdout=subprocess.PIPE, stderr=subprocess.STDOUT,
+                                text=True, timeout=1500)
+            okc = pr.returncode == 0
+            ck.oblige("leanchecker " + " ".join(mods), okc, pr.stdout[-1000:])
+            if not okc:
+                broken.append("leanchecker rejects: " + pr.stdout[-1000:])
+        except Exception as e:
+            ck.oblige("leanchecker", False, repr(e))
+            broken.append("leanchecker could not run: %r" % e)
     drv = Driver("drv_cfg")
     corr = []          # (name, case, real, model): model and code disagree, oracle sides with the code
+    sampled = {}
 
     cpus, badcpu = R.load_cpus()
     ck.cov["isas"] = sorted(cpus)
@@ -108,7 +124,7 @@ def main(tier):
     streams = []       # (isa, buffer, [instruction objects], [dumps]) for C and D
 
     # ---- A: sweeps on raw buffers -----------------------------------------------------------
-    nbuf = 4 if quick else 40
+    nbuf = 4 if quick else 100
     for name in sorted(cpus):
         cpu = cpus[name]
         try:
@@ -130,6 +146,10 @@ def main(tier):
             table = R.reader_table(p, range(0, len(buf) + 2))
             tab_list = [v for a, v in sorted(table.items()) if isinstance(v, list)]
             starts = [0] + [r.randrange(len(buf)) for _ in range(2)]
+            path0, a = set(), 0
+            while isinstance(table.get(a), list) and a not in path0:
+                path0.add(a)
+                a += O.ilen(table[a])
             for loc in starts:
                 for as_cst in (False, True):
                     limit = 400
@@ -163,7 +183,7 @@ def main(tier):
                         continue
                     dseq = [R.dump_instr(i) for i in seq]
                     dblocks = [[R.dump_instr(i) for i in b.instr] for b in blocks]
-                    case = {"isa": name, "bytes": buf.hex(), "loc": loc, "cst": as_cst}
+                    case = {"kind": "sweep", "isa": name, "bytes": buf.hex(), "loc": loc, "cst": as_cst}
                     ck.case(("A", name, buf, loc, as_cst), nontrivial=len(dseq) > 1)
                     ck.count("A.sweeps")
                     ck.count("A.isa.%s" % name)
@@ -171,8 +191,8 @@ def main(tier):
                     ck.count("A.blocks", len(dblocks))
                     ck.count("A.delayed", sum(1 for d in dseq if d[3]))
                     ck.count("A.cf", sum(1 for d in dseq if d[2]))
-                    if loc and table.get(loc) and not any(d[0] == loc for d in [R.dump_instr(i) for i in (R.real_sequence(p, 0, limit) or [])]):
-                        ck.count("A.mid-instruction-start")
+                    if loc not in path0:
+                        ck.count("A.start-off-the-sweep-from-0")
                     # property oracle on the real result
                     bad = O.check_sequence(table, loc, None, dseq, limit)
                     bad += O.check_blocks(dseq, dblocks, complete)
@@ -192,7 +212,9 @@ def main(tier):
                     rb = [[d[0] for d in b] for b in dblocks]
                     if "err" in m or m["seq"] != rs or m["blocks"] != rb or m["first"] != (rb[0] if rb else None):
                         corr.append(("sweep:%s" % name, case, {"seq": rs, "blocks": rb}, m))
-                    ck.sample({"A": [name, buf.hex(), loc, rb[:3]]})
+                    if not sampled.get("A") and len(rb) > 1:
+                        sampled["A"] = 1
+                        ck.sample({"A": [name, buf.hex(), loc, rb[:3]]})
             # keep a stream for C and D
             seq0 = R.real_sequence(p, cpu.cst(0, pcsize), 400) if not any(table.get(a) in ("raise", "other") for a in table) else None
             if seq0 and len(seq0) >= 3:
@@ -290,7 +312,7 @@ def main(tier):
             ck.case(("B", rel, loc), nontrivial=True)
             ck.count("B.sweeps")
             ck.count("B.instr", len(dseq))
-            case = {"sample": rel, "loc": loc}
+            case = {"kind": "sweep", "isa": "sample:" + rel, "bytes": None, "loc": loc, "cst": True}
             bad = O.check_sequence(table, loc, 1 << pcsize, dseq, K)
             bad += O.check_blocks(dseq, dblocks, complete)
             if bad:
@@ -309,10 +331,12 @@ def main(tier):
                 corr.append(("sweep:sample:%s" % rel, case, {"seq": rs, "blocks": rb}, m))
             if off == 0 and len(seq) >= 3:
                 streams.append(("sample:" + rel, None, seq[:40], dseq[:40]))
-            ck.sample({"B": [rel, hex(loc), rb[:2]]})
+            if not sampled.get("B"):
+                sampled["B"] = 1
+                ck.sample({"B": [rel, hex(loc), rb[:2]]})
 
     # ---- C: block operations ---------------------------------------------------------------------
-    nblk = 60 if quick else 1500
+    nblk = 60 if quick else 5000
     for _ in range(nblk):
         if not streams:
             break
@@ -346,7 +370,7 @@ def main(tier):
         cpu_cst = None
         for op, mres in zip(ops, m):
             b = R.code.block(list(instrs))
-            case = {"isa": name, "stream": dumps, "op": op}
+            case = {"kind": "block", "isa": name, "bytes": buf.hex() if buf else None, "stream": dumps, "op": op}
             try:
                 if op[0] == "support":
                     sup = b.support
@@ -428,8 +452,9 @@ def main(tier):
             k2 = k2 or key
             ck.report("C18:add_vertex:%s:%s" % (k2[0], k2[1]),
                       "inserting blocks %r of the %s stream %r into cfg.graph: %s at insertion %d (%s)"
-                      % (small, name, stream_j, k2[0], k2[2], k2[1]), "oracle", "Amoco.Cfg.Props.cfg_partition",
-                      case={"isa": name, "bytes": buf.hex() if buf else None, "stream": stream_j, "hist": small},
+                      % (small, name, stream_j, k2[0], k2[2], k2[1]), "oracle",
+                      "Amoco.Cfg.Props.cfg_fallthrough" if k2[0] == "no-fallthrough-edge" else "Amoco.Cfg.Props.cfg_partition",
+                      case={"kind": "cfg", "isa": name, "bytes": buf.hex() if buf else None, "stream": stream_j, "hist": small},
                       real=steps2[-1] if steps2 else None,
                       model=drv.ask({"op": "cfg", "stream": stream_j, "hist": [list(h) for h in small]}),
                       expected="pairwise-disjoint runs covering exactly the inserted instructions, fall-through edge at every split")
@@ -442,9 +467,14 @@ def main(tier):
             ck.count("D.unmodelled")
             return
         rsteps = [{"res": st["res"], "ret": st["ret"], "support": st["support"], "edges": st["edges"]} for st in steps]
+        if sampled.get("D", 0) < 3 and len(hist) > 2:
+            sampled["D"] = sampled.get("D", 0) + 1
+            ck.sample({"D": {"isa": name, "stream": stream_j, "hist": hist, "final_support": [x[:2] for x in rsteps[-1]["support"]],
+                             "final_edges": rsteps[-1]["edges"]}})
         if ms != rsteps:
             first = next((k for k, (x, y) in enumerate(zip(ms, rsteps)) if x != y), None)
-            corr.append(("cfg:add_vertex", {"isa": name, "stream": stream_j, "hist": hist, "first_diff": first},
+            corr.append(("cfg:add_vertex", {"kind": "cfg", "isa": name, "bytes": buf.hex() if buf else None, "stream": stream_j,
+                                            "hist": hist, "first_diff": first},
                          rsteps[first] if first is not None else rsteps, ms[first] if first is not None else ms))
             return
         # get_with_address
@@ -464,7 +494,7 @@ def main(tier):
     if not dstreams:
         ck.report("C18:no-stream", "no instruction stream could be produced for the cfg histories", "oracle", "generator", failing_input_found=False)
     # all orders of small sets
-    ngroups = 25 if quick else 400
+    ngroups = 25 if quick else 1500
     for gi in range(ngroups):
         if not dstreams:
             break
@@ -478,7 +508,7 @@ def main(tier):
         for perm in itertools.permutations(range(k)):
             judge(name, buf, sub, dsub, [runs[i] for i in perm], (), "allorders-" + style)
     # random larger histories
-    nrand = 250 if quick else 8000
+    nrand = 250 if quick else 30000
     for hi in range(nrand):
         if not dstreams:
             break
@@ -544,6 +574,7 @@ def main(tier):
                   case=case, real=real, model=mod, failing_input_found=False)
     ck.oblige("correspondence sweep/blocks/cfg", not corr, "%d disagreements" % len(corr))
     ck.assumptions += [
+        "the model follows amoco/cfg.py and amoco/system/memory.py as repaired by proposed_fixes/C18-cfg-add-vertex.diff and C18-memory-dead-history-copies.diff; without them the check reports the defects of add_vertex as violations",
         "instruction streams are consecutive without address wrap-around inside one block history (wrap-around of cst addresses is compared for sweeps of 16-bit ISAs only)",
         "grandalf's graph (components, edge sets keyed by link name) and MemoryZone's bisect are modelled, not verified",
         "blocks of different decodings of the same bytes (overlay zone) are outside the model (answered 'unmodelled', counted)",
@@ -558,5 +589,100 @@ def main(tier):
                      "compared after every insertion (non-trivial: more than one insertion)")
 
 
+def rebuild(case, start, n):
+    """the real instruction objects of a recorded case: sweep again from `start`."""
+    isa = case["isa"]
+    if isa.startswith("sample:"):
+        p = R.sample_task(isa[len("sample:"):])
+    else:
+        cpus, _ = R.load_cpus()
+        p = R.raw_task(bytes.fromhex(case["bytes"]), cpus[isa])
+    cpu = p.cpu
+    return p, R.real_sequence(p, cpu.cst(start, cpu.PC().size), n)
+
+
+def replay(path):
+    rec = json.load(open(path))
+    case = rec["case"]
+    kind = case.get("kind")
+    print("broken  :", rec.get("broken"))
+    print("what    :", rec.get("what"))
+    drv = Driver("drv_cfg")
+    bad = None
+    if kind == "cfg":
+        stream_j, hist = case["stream"], [tuple(h) for h in case["hist"]]
+        p, seq = rebuild(case, stream_j[0][0], len(stream_j))
+        dseq = [R.dump_instr(i) for i in seq]
+        A = [d[0] for d in dseq] + [dseq[-1][0] + O.ilen(dseq[-1])]
+        g, steps = R.run_history(seq, hist)
+        m = drv.ask({"op": "cfg", "stream": stream_j, "hist": [list(h) for h in hist]})
+        for k, st in enumerate(steps):
+            if st["res"] != "ok":
+                bad = "raise:%s %s" % (st["exc"], st.get("msg", ""))
+                break
+            b = O.check_partition(A, hist[:k + 1], st["support"], st["edges"])
+            if b:
+                bad = ",".join(b) + " at insertion %d" % k
+                break
+        print("real    :", json.dumps(steps[-1] if steps else None, default=repr))
+        print("model   :", json.dumps(m["steps"][-1] if m.get("steps") else m))
+        print("expected: pairwise-disjoint runs covering exactly the inserted instructions, fall-through edge at every split")
+        if bad is None and [x.get("support") for x in m.get("steps", [])] != [x.get("support") for x in steps]:
+            print("model and code disagree (no property violation)")
+    elif kind == "sweep":
+        p, _ = rebuild(case, case["loc"], 1)
+        cpu = p.cpu
+        loc, limit = case["loc"], 400
+        arg = cpu.cst(loc, cpu.PC().size) if case.get("cst") else loc
+        seq = R.real_sequence(p, arg, limit) or []
+        blocks, complete = R.real_iterblocks(p, arg, limit)
+        dseq = [R.dump_instr(i) for i in seq]
+        dblocks = [[R.dump_instr(i) for i in b.instr] for b in blocks]
+        hi = (dseq[-1][0] + O.ilen(dseq[-1]) + 2) if dseq else loc + 2
+        table = R.reader_table(p, range(loc, hi))
+        b = O.check_sequence(table, loc, None, dseq, limit) + O.check_blocks(dseq, dblocks, complete)
+        bad = ",".join(b) if b else None
+        tab_list = [v for a, v in sorted(table.items()) if isinstance(v, list)]
+        m = drv.ask({"op": "sweep", "table": tab_list, "loc": loc, "fuel": limit, "mod": None})
+        print("real    :", json.dumps({"seq": [[d[0], O.ilen(d)] for d in dseq], "blocks": [[d[0] for d in x] for x in dblocks]}))
+        print("model   :", json.dumps(m))
+        print("expected: consecutive instructions as the reader gives them, blocks = maximal runs up to a block end")
+    elif kind == "block":
+        dumps, op = case["stream"], case["op"]
+        p, seq = rebuild(case, dumps[0][0], len(dumps)) if case.get("bytes") or case["isa"].startswith("sample:") else (None, None)
+        m = drv.ask({"op": "blk", "instrs": dumps, "ops": [op]})
+        print("model   :", json.dumps(m))
+        print("recorded real:", json.dumps(rec.get("real")), " expected:", json.dumps(rec.get("expected")))
+        if seq:
+            b = R.code.block(list(seq))
+            if op[0] == "getitem":
+                rb = b[op[1]:op[2]]
+                real = None if rb is None else [R.ival(i.address) for i in rb.instr]
+                eb = O.blk_getitem(dumps, op[1], op[2])
+                exp = None if eb is None else [d[0] for d in eb]
+            elif op[0] == "cut":
+                a0 = seq[0].address
+                nl = b.cut(a0 + (op[1] - R.ival(a0)) if op[1] >= R.ival(a0) else a0 - (R.ival(a0) - op[1]))
+                real = [nl, [R.ival(i.address) for i in b.instr]]
+                eb, enl = O.blk_cut(dumps, op[1])
+                exp = [enl, [d[0] for d in eb]]
+            elif op[0] == "raw":
+                real, exp = list(b.raw()), O.blk_raw(dumps)
+            elif op[0] == "length":
+                real, exp = b.length, sum(O.ilen(d) for d in dumps)
+            else:
+                real, exp = [R.ival(b.support[0]), R.ival(b.support[1])], O.blk_support(dumps)
+            print("real    :", json.dumps(real))
+            print("expected:", json.dumps(exp))
+            bad = None if real == exp else "block.%s" % op[0]
+    else:
+        print("case kind %r cannot be replayed" % kind)
+    drv.close()
+    print("VIOLATION property=C18 replay=%s (%s)" % (path, bad) if bad else "no violation on the current tree")
+    return 1 if bad else 0
+
+
 if __name__ == "__main__":
+    if len(sys.argv) > 2 and sys.argv[1] == "replay":
+        sys.exit(replay(sys.argv[2]))
     sys.exit(main(sys.argv[1] if len(sys.argv) > 1 else "quick"))
